@@ -9,7 +9,7 @@ invalid trees go through the same judge.
 import os
 import random
 
-from harness.common import MachineryError, run_tlc, SPEC, workdir, parallel, judge_traces
+from harness.common import deadline, MachineryError, run_tlc, SPEC, workdir, parallel, judge_traces
 from harness import tables, valtrace
 from harness.world import World, Node
 from harness.tables import walk
@@ -84,7 +84,8 @@ def record_prune(root, strict, desc):
     raised = ""
     ret = []
     try:
-        out = validate.prune(root, strict=strict)
+        with deadline(20):
+            out = validate.prune(root, strict=strict)
         for item in out:
             ok = isinstance(item, tuple) and len(item) == 2 and isinstance(item[1], str)
             ret.append([w.ident(item[0]) if isinstance(item, tuple) else -99, bool(ok)])
@@ -96,7 +97,8 @@ def record_prune(root, strict, desc):
     removed_valid = list(post_valid)        # the removed roots keep their (already pruned) children: observed detached
     second_raised = ""
     try:
-        second = validate.prune(root, strict=strict)
+        with deadline(20):
+            second = validate.prune(root, strict=strict)
         second_ret = len(second)
     except Exception as e:  # noqa: BLE001
         second_ret = -1
